@@ -1,23 +1,24 @@
 //go:build verif
 
-// Harness for C04: the REAL open-tunnel dispatcher (SessionManager.HandlePacket(TunnelOpen) with the
-// real ServerTunnelHandler, the real conncode.Service, the real BuiltinCloudControl and routing table on
-// memory storage) driven through every cell of
+// Harness for C04: the REAL open-tunnel dispatcher (SessionManager.HandlePacket(TunnelOpen) with the real
+// ServerTunnelHandler, the real conncode.Service, the real BuiltinCloudControl and routing table on memory
+// storage) driven through every cell of
+// connection identity x presented credential x mapping state x tunnel state at arrival.
 //
-//	connection identity x presented credential x mapping state x tunnel state at arrival.
+//	open pl <ok|junk|empty> maps <k> (<id> <listen> <target> <secret|-> <a|i> <rev 0|1> <exp 0|1|2>)*
+//	     conn <hs 0|1|2> <cid> req <mid|-> <secret|-> <token|-> ts <none | bridge <mid> <served 0|1> | remote <mid> | local <mid>>
+//	## ack <none|ok|fail> att <none|src|tgt|fwd> data <0|1> ret <switch|err|nil|pending>
 //
-// case:  open pl <ok|junk|empty> maps <k> (<id> <listen> <target> <secret|-> <a|i> <rev> <exp>)*
+// maps: the port mappings that exist WHEN THE REQUEST ARRIVES (active/inactive, revoked, expiry: 0 none, 1 past,
+// 2 future).  A bridge for mapping <mid> is set up beforehand by a legitimate listen client (and, when served, a
+// legitimate target) through the same real code while that mapping was active; the mapping is then brought to
+// the listed state, or deleted when it is not listed.  remote: the routing table says the tunnel waits on node-B
+// (a TCP listener of the harness); local: it names this node although no bridge exists.
+// conn: hs 0 = no handshake, 1 = handshake accepted as client <cid>, 2 = handshake refused.
+// ack = TunnelOpenAck read on the requesting connection; att = what the bridge (or the other node) holds of the
+// requester afterwards; data = bytes written by the other end became readable on the requester.
 //
-//	          conn <hs 0|1|2> <cid> req <mid|-> <secret|-> <token|-> ts <none | bridge <mid> <served 0|1> | remote <mid>>
-//	maps: the port mappings that exist WHEN THE REQUEST ARRIVES (status active/inactive, revoked, expired).
-//	      A bridge / route for mapping <mid> is set up beforehand by a legitimate listen client while that
-//	      mapping was active; it is then brought to the listed state (or deleted when not listed).
-//	conn: hs 0 = no handshake, 1 = handshake accepted as client <cid>, 2 = handshake refused.
-//
-// obs:   ack <none|ok|fail> att <none|src|tgt|fwd> data <0|1> ret <switch|err|nil|pending>
-//
-//	ack  = TunnelOpenAck read on the requesting connection; att = what the bridge (or the other node) holds of
-//	the requester; data = bytes written by the other end became readable on the requester.
+//	e2e ## secret <set|empty> src <ack> tgt <ack> data <0|1>      (see runE2E)
 package main
 
 import (
@@ -250,8 +251,8 @@ func (c *caseT) String() string {
 	switch c.ts {
 	case "bridge":
 		fmt.Fprintf(&sb, "bridge %s %s", c.tsMid, b2s(c.served))
-	case "remote":
-		fmt.Fprintf(&sb, "remote %s", c.tsMid)
+	case "remote", "local":
+		fmt.Fprintf(&sb, "%s %s", c.ts, c.tsMid)
 	default:
 		sb.WriteString("none")
 	}
@@ -308,7 +309,7 @@ func parseCase(s string) (c *caseT, err error) {
 	case "bridge":
 		c.tsMid = next()
 		c.served = next() == "1"
-	case "remote":
+	case "remote", "local":
 		c.tsMid = next()
 	case "none":
 	default:
@@ -329,6 +330,7 @@ type world struct {
 	cancel context.CancelFunc
 	sm     *session.SessionManager
 	mrepo  *repos.PortMappingRepo
+	pms    services.PortMappingService
 	rt     *session.TunnelRoutingTable
 	conns  []*pipeEnd
 	ln     net.Listener
@@ -342,6 +344,7 @@ func newWorld() *world {
 	repo := repos.NewRepository(st)
 	cc := factories.NewBuiltinCloudControlWithRepo(w.ctx, managers.DefaultConfig(), st, repo)
 	w.mrepo = repos.NewPortMappingRepo(repo)
+	w.pms = cc.GetPortMappingService()
 	ccs := services.NewConnectionCodeService(repos.NewConnectionCodeRepository(repo), cc.GetPortMappingService(), w.mrepo, nil, w.ctx)
 	th := server.NewServerTunnelHandler(cc, ccs)
 	w.sm = session.NewSessionManager(idgen.NewIDManager(st, w.ctx), w.ctx)
@@ -494,7 +497,59 @@ func (w *world) startNodeB() error {
 	return nil
 }
 
+// runE2E: a mapping created through the real PortMappingService without a secret (as the connection-code
+// activation does), then the listen client opens a tunnel with the mapping id and the target client joins it with
+// the secret the server would hand it: both must be admitted and bytes must flow (the repaired dispatcher still
+// serves the legitimate parties).
+//
+//	case: e2e     obs: secret <set|empty> src <ack> tgt <ack> data <0|1>
+func runE2E() string {
+	w := newWorld()
+	defer w.close()
+	pm, err := w.pms.CreatePortMapping(&models.PortMapping{ListenClientID: 11, TargetClientID: 22, Protocol: models.ProtocolTCP,
+		TargetHost: "127.0.0.1", TargetPort: 9, Status: models.MappingStatusActive})
+	if err != nil {
+		return "setup-failed:create-mapping"
+	}
+	sec := "set"
+	if pm.SecretKey == "" {
+		sec = "empty"
+	}
+	src, err := w.connect("S")
+	if err != nil {
+		return "setup-failed:connect"
+	}
+	w.handshake(src, 11, true)
+	w.open(src, openPayload(pm.ID, "", ""))
+	srcAck, _ := readAck(src.cli.snapshot())
+	src.cli.drain()
+	tgt, err := w.connect("T")
+	if err != nil {
+		return "setup-failed:connect"
+	}
+	w.handshake(tgt, 22, true)
+	w.open(tgt, openPayload(pm.ID, pm.SecretKey, ""))
+	tgtAck, _ := readAck(tgt.cli.snapshot())
+	src.cli.Write([]byte(marker))
+	data := false
+	for dl := time.Now().Add(time.Second); time.Now().Before(dl); {
+		if _, rest := readAck(tgt.cli.snapshot()); bytes.Contains(rest, []byte(marker)) {
+			data = true
+			break
+		}
+		time.Sleep(200 * time.Microsecond)
+	}
+	if data {
+		waitEcho(tgt, src)
+	}
+	return fmt.Sprintf("secret %s src %s tgt %s data %s", sec, srcAck, tgtAck, b2s(data))
+}
+
 func runCase(c *caseT) (obs string) {
+	return guarded(func() string { return runCaseInner(c) })
+}
+
+func guarded(f func() string) (obs string) {
 	res := make(chan string, 1)
 	go func() {
 		defer func() {
@@ -502,7 +557,7 @@ func runCase(c *caseT) (obs string) {
 				res <- "panic " + strings.ReplaceAll(fmt.Sprint(r), " ", "_")
 			}
 		}()
-		res <- runCaseInner(c)
+		res <- f()
 	}()
 	select {
 	case s := <-res:
@@ -595,11 +650,15 @@ func runCaseInner(c *caseT) string {
 		} else if err := w.mrepo.DeletePortMapping(setup.id); err != nil {
 			return "setup-failed:delete-mapping"
 		}
-	case "remote":
+	case "remote", "local":
 		if err := w.startNodeB(); err != nil {
 			return "setup-failed:listen"
 		}
 		st := &session.TunnelWaitingState{TunnelID: tunnelID, MappingID: c.tsMid, SourceNodeID: "node-B"}
+		if c.ts == "local" {
+			// the route names this very node although no bridge exists (yet): handleLocalBridgeWait
+			st.SourceNodeID = "node-A"
+		}
 		if m, ok := final[c.tsMid]; ok {
 			st.SourceClientID, st.TargetClientID = m.listen, m.target
 		}
@@ -662,7 +721,7 @@ func runCaseInner(c *caseT) string {
 			att = "src"
 		}
 	}
-	if att == "none" && c.ts == "remote" {
+	if att == "none" && (c.ts == "remote" || c.ts == "local") {
 		wait := 20 * time.Millisecond
 		if ack == "ok" {
 			wait = 500 * time.Millisecond
@@ -723,7 +782,7 @@ func matrix() []*caseT {
 	creds := [][3]string{{"M", "", ""}, {"M", "s3cretM", ""}, {"M", "wrong", ""}, {"M", "", "resume-token-1"}, {"", "", ""},
 		{"F", "", ""}, {"F", "s3cretF", ""}}
 	states := []string{"active", "revoked", "expired", "inactive", "missing"}
-	tss := []string{"none", "waiting", "served", "remote"}
+	tss := []string{"none", "waiting", "served", "remote", "local"}
 	for _, id := range ids {
 		for _, cr := range creds {
 			for _, st := range states {
@@ -751,6 +810,8 @@ func matrix() []*caseT {
 						c.ts, c.tsMid, c.served = "bridge", "M", true
 					case "remote":
 						c.ts, c.tsMid = "remote", "M"
+					case "local":
+						c.ts, c.tsMid = "local", "M"
 					}
 					out = append(out, c)
 				}
@@ -875,6 +936,10 @@ func runAll(out *vc.Out, lines []string, tag string) {
 		go func(i int) {
 			defer wg.Done()
 			defer func() { <-sem }()
+			if strings.TrimSpace(lines[i]) == "e2e" {
+				obs[i] = guarded(runE2E)
+				return
+			}
 			c, err := parseCase(lines[i])
 			if err != nil {
 				obs[i] = "bad-case"
@@ -928,6 +993,7 @@ func main() {
 			lines = append(lines, c.String())
 		}
 		runAll(out, lines, "matrix")
+		runAll(out, []string{"e2e"}, "e2e")
 		n := 600
 		if *tier == "thorough" {
 			n = 12000
